@@ -56,6 +56,9 @@ CHECKS = {
     "C16": dict(tech="offline trace oracle: FIFO model of stashed event tokens per module, stash admission rules, unstash(n) return value and the single directly nested handler invocation with exactly the oldest events; stash_become profile; plain build, both modes",
                 text="Generated stash/unstash(n) sequences (n from 1 to beyond the stash size and SIZE_MAX, from handlers and from outside, interleaved with deliveries, handler changes and stop/start) are judged call by call against a FIFO model using unique event tokens.",
                 ref="C16/C17"),
+    "C14": dict(tech="multi-threaded harness (one context per thread, 2-8 threads) run under ThreadSanitizer and AddressSanitizer; in-harness monitors (sender / user-data / descriptor belong to the receiving context, messages received == messages its own deterministic program sent), alone-vs-concurrent differential of per-context counters, foreign-thread call matrix over every non-getter m_mod_* prototype with the owner parked on a barrier",
+                text="Contexts with identical module names run loops, pub/sub, timers, descriptor and task sources concurrently; every TSan report with a library frame is a violation, per-context counters must equal those of the same seeds run sequentially, and every module call from a thread not owning the context must fail without effect. Schedules are sampled; race detection is per observed execution.",
+                ref="C14"),
     "C15": dict(tech="offline trace oracle: name table (live names, allow-replace), deny-pub/deny-sub/deny-ctx/persist/reserved-prefix rules applied to every restricted call with the callback stack known, refused sends tracked by unique payload so that 'nothing is delivered' is checked; perms profile (flag subsets x call classes x callback kinds x nesting); plain build, both modes",
                 text="Every restricted call in generated histories is judged with the flags of the calling module and the callback it was issued from: it must fail and leave no trace (no delivery, same source count, loop not quit, module still registered); equal names are registered in every order against incumbents with and without allow-replace.",
                 ref="C15"),
